@@ -65,7 +65,7 @@ def pattern(draw, p, maxlen=64):
 
 
 @st.composite
-def tok_case(draw, maxmax=8, maxlen=64, init="any", kinds=("obj", "char", "bytes", "np"), delivs=("list", "gen", "cb")):
+def tok_case(draw, maxmax=8, maxlen=64, init="any", kinds=("obj", "char", "bytes", "np", "int"), delivs=("list", "gen", "cb")):
     p = draw(tok_params(maxmax, init))
     pat = draw(pattern(p, maxlen))
     case = {
